@@ -21,7 +21,7 @@ def parseQOp (j : Json) : R Op := do
   | .ok v => pure (.submit (← parseQJob v))
   | .error _ => pure (.processQueue (← parsePolls (← fld j "pq")))
 
-def sortNats (l : List Nat) : List Nat := (l.toArray.qsort (· < ·)).toList
+private def sortNats (l : List Nat) : List Nat := (l.toArray.qsort (· < ·)).toList
 
 /-- canonical dump of a queue state: outstanding (insertion order), queued (list order, blockers sorted),
     launches and rows in the order they happened, counters -/
